@@ -43,6 +43,7 @@ type FuncContract struct {
 	Atomic     bool
 	Unroll     map[int]int
 	Safe       map[string]bool
+	After      map[string][]Clause // callee text -> stepping-stone assertions proved and then assumed after the statement containing the call
 }
 
 // SpecFunc is a pure specification function.
@@ -146,7 +147,7 @@ func (pc *PkgContracts) parseFile(path string) error {
 			if _, dup := pc.Funcs[key]; dup {
 				return fmt.Errorf("%s:%d: duplicate contract for %s", path, l.line, key)
 			}
-			cur = &FuncContract{Key: key, LoopInv: map[int][]Clause{}, LoopMod: map[int][]string{}, CallReq: map[string][]Clause{}, File: path, Line: l.line, Unroll: map[int]int{}, Safe: map[string]bool{}}
+			cur = &FuncContract{Key: key, LoopInv: map[int][]Clause{}, LoopMod: map[int][]string{}, CallReq: map[string][]Clause{}, File: path, Line: l.line, Unroll: map[int]int{}, Safe: map[string]bool{}, After: map[string][]Clause{}}
 			pc.Funcs[key] = cur
 			pc.Order = append(pc.Order, key)
 		case "spec":
@@ -274,6 +275,13 @@ func (pc *PkgContracts) parseFile(path string) error {
 				}
 				cal := strings.TrimSpace(rest[:i])
 				cur.CallReq[cal] = append(cur.CallReq[cal], Clause{Text: strings.TrimSpace(rest[i+1:]), Line: l.line, File: path})
+			case "after":
+				i := strings.Index(rest, ":")
+				if i < 0 {
+					return fmt.Errorf("%s:%d: after needs 'callee: expr'", path, l.line)
+				}
+				cal := strings.TrimSpace(rest[:i])
+				cur.After[cal] = append(cur.After[cal], Clause{Text: strings.TrimSpace(rest[i+1:]), Line: l.line, File: path})
 			case "havoc":
 				for _, v := range strings.Split(rest, ",") {
 					cur.Havoc = append(cur.Havoc, strings.TrimSpace(v))
